@@ -43,12 +43,13 @@ def spell_bound(rng, b_ns, e_ns, default_unit, style=None):
 
 def period_alts(pns):
     """the equivalent ways of giving a period of pns nanoseconds: an integer number of a smaller unit, or a float number of a larger
-    unit when that float denotes the period exactly (x * unit == pns in float arithmetic, e.g. 0.5 s, 0.25 s, 0.02 us)"""
+    unit when the decimal notation of that float denotes the period exactly (0.5 s, 0.25 s, 33.3 ms, 0.0333 s, 0.02 us)"""
     alts = [(pns // U[u], u) for u in U if pns % U[u] == 0]
     for u in U:
         if pns % U[u]:
             x = pns / U[u]
-            if x * U[u] == pns and Fraction(x * U[u]) == pns:
+            # the float whose shortest decimal notation denotes the period exactly (33.3 ms = 33300 us, 0.5 s = 500 ms)
+            if Fraction(repr(x)) * U[u] == pns:
                 alts.append((x, u))
     return alts
 
@@ -58,7 +59,7 @@ def spelling(rng, f):
     {'spec': text, 'period': [p, unit, tol], 'unit': default unit}; None when f has no bounded operator"""
     if not (fml.ops(f) & (fml.TUN | fml.TBIN)):
         return None
-    periods = [(1, 's'), (500, 'ms'), (250, 'ms'), (2, 's'), (100, 'us'), (1000, 'ms'), (20, 'ns'), (1, 'ms')]
+    periods = [(1, 's'), (500, 'ms'), (250, 'ms'), (2, 's'), (100, 'us'), (1000, 'ms'), (20, 'ns'), (1, 'ms'), (33300, 'us'), (16600, 'us'), (4100, 'ms'), (67, 'ms'), (100, 'ms')]
     p, pu = rng.choice(periods)
     pns = p * U[pu]
     period = rng.choice(period_alts(pns))
@@ -78,7 +79,7 @@ class C08(Check):
     def gen_cases(self, rng, tier):
         cases = []
         nrand = 220 if tier == 'quick' else 3000
-        periods = [(1, 's'), (500, 'ms'), (250, 'ms'), (2, 's'), (100, 'us'), (1000, 'ms'), (1000000, 'us'), (20, 'ns'), (1, 'ms')]
+        periods = [(1, 's'), (500, 'ms'), (250, 'ms'), (2, 's'), (100, 'us'), (1000, 'ms'), (1000000, 'us'), (20, 'ns'), (1, 'ms'), (33300, 'us'), (16600, 'us'), (4100, 'ms'), (67, 'ms'), (100, 'ms')]
         P = ('pred', 'geq', ('var', 0), ('const', 1))
         for i in range(nrand):
             nv = rng.choice([1, 2])
@@ -109,8 +110,14 @@ class C08(Check):
                     b_ns, e_ns = b * pns, e * pns
                     if kind == 'reject' and not bad[0] and pns > 1:
                         bad[0] = True
-                        if rng.random() < 0.5:
+                        r = rng.random()
+                        if r < 0.35:
                             e_ns += rng.choice([1, pns // 2 if pns >= 2 else 1])
+                        elif r < 0.7:
+                            # both ends off the grid by the same amount: the width of the window is still a multiple of the period
+                            d = rng.choice([1, pns // 2 if pns >= 2 else 1])
+                            b_ns += d
+                            e_ns += d
                         else:
                             b_ns += 1
                             e_ns += pns
